@@ -47,7 +47,7 @@ TECHNIQUE = (
     "with the complete schedule dimension (every max_batch_size 1..num_bf and None) at every point; full delta basis of the stack for linearity"
 )
 CLAIM = (
-    "For every point of the stated lattice and every batch size 1..num_bf the reconstruction equals the one-batch result (within 2.5e-5 of its maximum, float32), "
+    "For every point of the stated lattice and every batch size 1..num_bf the reconstruction equals the one-batch result (within 3e-5 of its maximum, float32), "
     "every alias string gives the bit-identical result of its canonical kernel, the reconstruction is linear in the stack (complete delta basis "
     "for the 5x5 scan, seeded pairs elsewhere), single-pass kernels recombine over three partitions of the mask weighted by the aperture weight "
     "(two-pass kernels are kept as a control that must violate it), parallax without sign flipping equals the independently translated, "
@@ -100,17 +100,17 @@ KNOWN_ALIASES = {
 
 # Tolerances (float32 implementation), all relative to the maximum of the reference. "observed" = worst over seeds
 # {0,1,2,7,12345}, both tiers, current tree (see max_* in the evidence); each tolerance is >= 20x the observed noise and
-# <= 1/20 of the smallest effect of a planned mutant. DESIGN proposed 5e-6 for batch invariance from a 50-point probe
+# <= 1/20 of the smallest effect seen in a mutant run. DESIGN proposed 5e-6 for batch invariance from a 50-point probe
 # (<= 6e-7); the full lattice reaches 1.1e-6 for parallax (float32 phase ramps of up to ~100 rad evaluated in differently
-# shaped einsum batches), so the 20x rule gives 2.5e-5.
-TOL_BATCH = 2.5e-5  # observed: prlx 1.1e-6, obf/mf 4.0e-7, ssb/icom <= 2e-7; mutant effects: power of last batch only >= 1e-2
-TOL_LIN = 5e-5  # seeded pairs, relative to max|R(2x-3y)|; observed 1.7e-6; bound by the 20x rule (no linearity mutant planned)
-TOL_BASIS = 1e-4  # R(x) vs sum_j x_j R(e_j) over up to 525 float32 basis responses; observed 4.3e-6
-TOL_RECOMB = 2e-5  # observed 4.4e-7; mutants: wrong index mapping >= 0.3, num_bf normalisation >= 4e-3
-TOL_ANALYTIC = 2e-4  # observed 6.1e-6 (float32 phase ramp); mutants: num_bf normalisation >= 4e-3, ramp sign >= 0.5, DC kept >= 1
-TOL_FILTER = 2e-5  # cross-kernel envelope relation, relative to the largest product; observed 4.4e-7; envelope twice >= 5e-2
-TOL_OVERRIDE = 2.5e-5  # override_* vs constructor hyper-parameters, run with another batch size: same noise as TOL_BATCH; observed 3.8e-7
-CONTROL_MIN = 1e-3  # a two-pass recombination residual above this counts as "violates" (observed minimum over the lattice: obf 2.4e-2, mf 3.5e-2)
+# shaped einsum batches), so the 20x rule gives 3e-5.
+TOL_BATCH = 3e-5  # observed: prlx 1.06e-6, mf 5.0e-7, obf 3.7e-7, ssb 3.5e-7, icom 0; mutants: power of last batch only / wrong gradient rows > 1
+TOL_LIN = 5e-5  # seeded pairs, relative to max|R(2x-3y)|; observed 1.9e-6; bound by the 20x rule (no linearity mutant planned)
+TOL_BASIS = 2e-4  # R(x) vs sum_j x_j R(e_j) over up to 525 float32 basis responses; observed 7.0e-6
+TOL_RECOMB = 4e-5  # observed 8.7e-7; mutants: wrong index mapping / num_bf normalisation 0.13..1.9
+TOL_ANALYTIC = 2e-4  # observed 6.1e-6 (float32 phase ramp); mutants: num_bf normalisation 0.16..0.33, ramp sign > 1, rotation sign > 0.8, DC kept > 3
+TOL_FILTER = 4e-5  # cross-kernel envelope relation, relative to the largest product; observed 9.0e-7; envelope twice 6e-2..9e-2
+TOL_OVERRIDE = 3e-5  # override_* vs constructor hyper-parameters, run with another batch size: same noise as TOL_BATCH; observed 6.9e-7
+CONTROL_MIN = 1e-3  # a two-pass recombination residual above this counts as "violates" (observed minimum over the lattice: obf 1.6e-2, mf 2.4e-2)
 
 
 def _lib():
@@ -491,9 +491,10 @@ def check_filter(t, env, kv, up, filt, stack_filt):
     """(6) the filter envelope is the same function of q for every kernel (reference: parallax without flipping)."""
     if filt == "none" or tuple(kv) == REF_KERNEL:
         return
-    k0 = recon(env.A, kv, up, "none", None, None).astype(np.float64)
-    p0 = recon(env.A, REF_KERNEL, up, "none", None, None).astype(np.float64).sum(0)
-    p1 = recon(env.A, REF_KERNEL, up, filt, None, None).astype(np.float64).sum(0)
+    F = env.fresh()  # a fresh object, so that a hidden-state defect is reported by its own relation and not here
+    k0 = recon(F, kv, up, "none", None, None).astype(np.float64)
+    p0 = recon(F, REF_KERNEL, up, "none", None, None).astype(np.float64).sum(0)
+    p1 = recon(F, REF_KERNEL, up, filt, None, None).astype(np.float64).sum(0)
     K1 = np.fft.fft2(np.asarray(stack_filt, np.float64))
     K0 = np.fft.fft2(k0)
     P0 = np.fft.fft2(p0)[None]
@@ -508,7 +509,7 @@ def check_filter(t, env, kv, up, filt, stack_filt):
         t.fail(
             {"relation": "filter_envelope_same_for_every_kernel", **kclass(kv)},
             dict(pt, kind="setting"),
-            f"F[R_{kv[0]},filtered]*F[R_prlx,unfiltered] differs from F[R_{kv[0]},unfiltered]*F[R_prlx,filtered] by {e:.3e} of max (tol {TOL_FILTER}): the {filt}-pass envelope acts differently on {kv[0]} than on parallax, at {pt}",
+            f"F[R_{kv[0]},filtered]*F[R_prlx,unfiltered] differs from F[R_{kv[0]},unfiltered]*F[R_prlx,filtered] by {e:.3e} of max (tol {TOL_FILTER}): the envelope of filter '{filt}' acts differently on {kv[0]} than on parallax, at {pt}",
         )
 
 
@@ -624,7 +625,7 @@ def run(ctx):
     ctx.assume(
         "stack order convention: image i of the stack belongs to the i-th True pixel of the detector mask in row-major order",
         "aperture weight W = sum |psi(k)|^2 over the mask from the library's public evaluate_probe (own closed-form soft aperture compared, see max_aperture_weight_own_vs_library_rel)",
-        "float32 tolerances relative to the output maximum: batch 2.5e-5, linearity 5e-5 (delta basis 1e-4), recombination / filter 2e-5, analytic 2e-4",
+        "float32 tolerances relative to the output maximum: batch 3e-5, linearity 5e-5 (delta basis 2e-4), recombination / filter 4e-5, analytic 2e-4",
         "oracle (4) is applied for zero aberrations, defocus and defocus+astigmatism only (as the property states), unfiltered; for upsampling > 1 the virtual image is the zero-interleaved image on the finer grid",
         "two-pass kernels (obf, mf) are exempt from recombination and must violate it (sensitivity control)",
         "oracle (6) (same filter envelope for every kernel) is not part of the literal statement; it makes 'filter' a hyper-parameter with one meaning",
@@ -656,8 +657,9 @@ def run(ctx):
         "batch_sizes": "every integer 1..num_bf(sub-mask) and None, at every point",
     }
     items = list(itertools.product(shapes, masks, list(ABERS), ROTS, range(len(KVARIANTS)), UPS))
-    # most expensive first (21-pixel mask, upsampling 3) so that the pool drains evenly; verdicts do not depend on order
-    items.sort(key=lambda it: (-len(det_mask(it[1])[1]), -it[5], -it[0][0] * it[0][1]))
+    # simplest first (small mask, no aberrations, upsampling 1): the failures kept per class are then the simplest points.
+    # Items cost 0.2-3 s each, so the order does not matter for the pool balance.
+    items.sort(key=lambda it: (len(det_mask(it[1])[1]), it[5], list(ABERS).index(it[2]), it[3], it[0][0] * it[0][1], it[4]))
     ctx.coverage["bounds"] = {"lattice_points": len(items) * len(filters) * len(SUBMASKS), "settings": len(items) * len(filters)}
     ctx.pmap(w_lattice, items, chunk=1, label="lattice x schedules", seed=ctx.seed, filters=filters)
 
@@ -707,6 +709,6 @@ def replay(ctx, case):
         bf, ref = check_point(t, env, kv, case["up"], case["filter"], case["sub"])
         if ref is not None:
             print(f"  point {env.point(kv, case['up'], case['filter'], case['sub'])}: num_bf={len(env.subs[case['sub']])} W={env.W[case['sub']]:.6f} max|R|={np.abs(ref).max():.6g}")
-    print("  worst observed / tolerance:", {k: f"{v:.3e}" for k, v in sorted(t.maxima.items())})
+    print("  worst observed deviations at this point:", {k: f"{v:.3e}" for k, v in sorted(t.maxima.items())})
     for f in t.fails:
         ctx.fail(f["cls"], f["case"], f["msg"])
